@@ -13,7 +13,7 @@ RULE = ("random designs with 1-3 clock domains (add_clock with even-femtosecond 
         "prescribes (a changed()-driven comb process, a tick().sample() sync process, two sync "
         "processes owning disjoint slices of one signal) and three testbenches with random scripts "
         "over {set, get, tick, tick().sample, tick().repeat, delay, posedge/negedge, elapsed_time}; "
-        "every case is run under the natural order, a canonical order and P=8/40 seeded permutations "
+        "every case is run under the natural order, a canonical order and P=8/24 seeded permutations "
         "of the ready-process, active-trigger and pending-commit sets (fresh permutation at every "
         "iteration): all observation traces and final states must be identical. In every run: "
         "elapsed_time at every wake-up equals the timing model (first toggle at phase, then every half "
@@ -24,7 +24,7 @@ RULE = ("random designs with 1-3 clock domains (add_clock with even-femtosecond 
         "distinct/non-trivial = distinct cases with >= 2 ready processes in some delta cycle.")
 ASSUMPTIONS = ["odd-femtosecond periods and phase 0 are not generated; a delay never lands exactly on a clock toggle instant of a domain the testbench ticks on next",
                "user processes read signals only through trigger samples and drive only their own bits (as the simulator guide requires)",
-               "changed() is not used in testbenches (documented as sensitive to glitches)"]
+               "changed() is used in a testbench only on a signal that is set once per instant by another testbench (glitch-free)"]
 REQUIRED_MONITORS = ["perm_multi", "timeline_advance"]
 MIN_NONTRIVIAL = {"quick": 150, "thorough": 1500}
 NSHARDS = 16
@@ -105,8 +105,12 @@ def is_toggle_instant(d, t):
 
 
 # ---- build & run ---------------------------------------------------------------------------------------
+def rngless_init(case):
+    return -3 if len(case["script"]) % 2 else 2
+
+
 def build(case):
-    from amaranth.hdl import Module, Signal, ClockDomain, Cat, Const
+    from amaranth.hdl import Module, Signal, ClockDomain, Cat, Const, signed
     from amaranth.lib.memory import Memory
     m = Module()
     b = type("B", (), {})()
@@ -151,9 +155,15 @@ def build(case):
                      w1.addr.eq(Cat(b.ctr[1][2], Const(1, 1))), w1.data.eq(b.ctr[1]), w1.en.eq(b.inp[1][0]),
                      rp.addr.eq(b.ctr[0][1:3])]
         b.mem, b.rp = mem, rp
+    # a signed signal whose sign bit and low bits are driven from different fragments / domains
+    b.ssig = Signal(signed(4), name="ssig", init=rngless_init(case))
+    s2.d.comb += b.ssig[0:2].eq(b.inp[0][:2])
+    s1.d[case["doms"][-1]["name"]] += b.ssig[2].eq(b.ctr[-1][0])
+    m.d[case["doms"][0]["name"]] += b.ssig[3].eq(~b.ssig[3])
     b.flag = Signal(16, name="flag")
+    b.flag2 = Signal(16, name="flag2")
     b.m = m
-    b.observed = b.ctr + b.cap + [b.l3, b.xr, b.p1_o, b.p2_o, b.packed, b.z, b.zreg] + ([b.rp.data] if b.mem else [])
+    b.observed = b.ctr + b.cap + [b.l3, b.xr, b.p1_o, b.p2_o, b.packed, b.z, b.zreg, b.ssig] + ([b.rp.data] if b.mem else [])
     return b
 
 
@@ -295,6 +305,13 @@ def run_case(case, order, out=None):
             k += 1
             ctx.set(b.flag, k)
 
+    async def tb_flag_relay(ctx):
+        # added between writer and reader; woken (by the writer's set) while the pass over the
+        # testbenches is already under way: it still runs before the later-added reader
+        while True:
+            await ctx.changed(b.flag)
+            ctx.set(b.flag2, ctx.get(b.flag) + 100)
+
     async def tb_flag_reader(ctx):
         k = 0
         while True:
@@ -306,7 +323,10 @@ def run_case(case, order, out=None):
             v = ctx.get(b.flag)
             if v != k:
                 problems.append(("testbench-order", dict(tick=k, flag=v)))
-            trace.append(["reader", k, fs(ctx), v])
+            v2 = ctx.get(b.flag2)
+            if v2 != k + 100:
+                problems.append(("testbench-order:woken-mid-pass", dict(tick=k, flag2=v2, expected=k + 100)))
+            trace.append(["reader", k, fs(ctx), v, v2])
 
     async def tb_delays(ctx):
         t = 0
@@ -320,6 +340,7 @@ def run_case(case, order, out=None):
             trace.append(["delays", n, fs(ctx)])
     sim.add_testbench(tb_main)
     sim.add_testbench(tb_flag_writer, background=True)
+    sim.add_testbench(tb_flag_relay, background=True)
     sim.add_testbench(tb_flag_reader, background=True)
     sim.add_testbench(tb_delays)
     if order is not None:
@@ -419,8 +440,8 @@ def check_replacements(rng, out):
 
 
 def shards(tier, seed):
-    n = 320 if tier == "quick" else 4000
-    return [{"seed": seed, "shard": i, "cases": n // NSHARDS, "perms": 8 if tier == "quick" else 40} for i in range(NSHARDS)]
+    n = 320 if tier == "quick" else 2400
+    return [{"seed": seed, "shard": i, "cases": n // NSHARDS, "perms": 8 if tier == "quick" else 24} for i in range(NSHARDS)]
 
 
 def run_shard(spec):
